@@ -598,3 +598,6 @@ def run(report, repo):
   report.guard(_c10.r2_record_lists, report, repo, rule='C19-R9')
   from sa.rules import extra5 as _e5d  # pylint: disable=g-import-not-at-top
   report.guard(_e5d.test_logger_has_no_forwarders, report, repo, 'C19-R10')
+  from sa.rules import extra5 as _e6b  # pylint: disable=g-import-not-at-top
+  report.guard(_e6b.top_logger_level_is_debug, report, repo, 'C19-R11')
+  report.guard(_e6b.mac_filter_looks_at_formatted_message, report, repo, 'C19-R12')
